@@ -22,7 +22,8 @@ Argv(mode, path, args) == IF mode = "cmd" THEN args ELSE <<path>> \o args
 Echo(prog) ==
   LET r == Run(prog)
   IN IF r.how = "compile" THEN [k |-> "none"]
-     ELSE IF r.how # "ok" THEN [k |-> "unspec"]          \* after a runtime error the property defines no echo
+     ELSE IF r.how = "rterror" THEN [k |-> "none"]       \* the final expression statement has no value: nothing is added
+     ELSE IF r.how # "ok" THEN [k |-> "unspec"]
      ELSE IF Len(prog) = 0 \/ prog[Len(prog)].t # "expr" THEN [k |-> "unspec-or-none"]
      ELSE CASE r.final.k = "null" -> [k |-> "none"]
             [] r.final.k = "int" -> [k |-> "text", v |-> ToDecimal(r.final.v) \o <<10>>]
